@@ -172,7 +172,9 @@ def _count_constructions():
     orig = R.DirectorySpecRepository.__init__
 
     def counted(self, *a, **k):
-        _constructions["repository"] += 1
+        from simaple.data.jobs.builtin import get_kms_spec_resource_path
+        if a and a[0] == get_kms_spec_resource_path():      # other repositories use the same class
+            _constructions["repository"] += 1
         return orig(self, *a, **k)
     R.DirectorySpecRepository.__init__ = counted
 
